@@ -65,7 +65,8 @@ SESSION = Policy([("default", True, {"send_destination": "*", "eavesdrop": "true
 LIMIT_KEYS = {"names": "max_names_per_connection", "rules": "max_match_rules_per_connection",
               "completed": "max_completed_connections", "peruser": "max_connections_per_user",
               "replies": "max_replies_per_connection", "maxmsg": "max_message_size", "reply_timeout": "reply_timeout",
-              "maxfds": "max_message_unix_fds", "pending_fd_timeout": "pending_fd_timeout"}
+              "maxfds": "max_message_unix_fds", "pending_fd_timeout": "pending_fd_timeout",
+              "start_timeout": "service_start_timeout", "pending": "max_pending_service_starts"}
 
 
 def gids_of(uid):
@@ -79,10 +80,10 @@ def gids_of(uid):
 # ---------------------------------------------------------------- implementation side
 
 class ImplRun:
-    def __init__(self, policy=SESSION, limits=None, extra=""):
+    def __init__(self, policy=SESSION, limits=None, extra="", env_extra=None):
         lim = {LIMIT_KEYS[k]: v for k, v in (limits or {}).items()}
         lim.setdefault("auth_timeout", 60000)
-        self.d = bus.Daemon(policy=policy.to_xml(), limits=lim, extra=extra)
+        self.d = bus.Daemon(policy=policy.to_xml(), limits=lim, extra=extra, env_extra=env_extra)
         self.c = {}            # cid -> Client
         self.closed = set()    # cids whose socket is closed (by us or by the bus)
         self.unique = {}       # cid -> unique name (learnt from the Hello reply)
